@@ -67,7 +67,8 @@ _short = st.text(alphabet="abcdefghijklmnopqrstuvwxyz0123456789", min_size=1, ma
 _cn = st.one_of(_short, _short, _short, _short, st.text(alphabet="abcdefghijklmnopqrstuvwxyz0123456789 ", min_size=20, max_size=60))
 party_s = st.fixed_dictionaries({"d": _d, "how": st.sampled_from(["direct", "direct"] + C.PROVENANCE), "lam": st.integers(2, M.P - 1).map(h), "dseed": st.integers(1, 1 << 40),
                                  "cn": _cn, "slen": st.sampled_from([1, 1, 2, 4, 8, 12, 16, 19])})
-_issuer = st.sampled_from(["CA", "CA", "CA", "CA", "CA", "CA", "verif test CA - a certification authority with a long name", "toolkit:ROOTCA"])
+_issuer = st.sampled_from(["CA", "CA", "CA", "CA", "CA", "CA", "verif test CA - a certification authority with a long name", "toolkit:ROOTCA",
+                           "maxdn:CA", "maxdn:CA"])
 _opt_info = st.one_of(st.none(), st.none(), st.binary(min_size=1, max_size=24).map(hb))
 _full = st.sampled_from([False] * 79 + [True])      # all bits of every listed field (fields of up to 96 bytes; longer ones sampled)
 _key16 = st.binary(min_size=16, max_size=16).map(hb)
